@@ -47,7 +47,7 @@ def main():
     d = f"/tmp/scratch/sv-{os.getpid()}"
     wt = os.path.join(d, "repo")
     os.makedirs(d, exist_ok=True)
-    tgt = "/tmp/scratch/sv-target"       # shared between verifications, removed by the caller at the end
+    tgt = os.path.join(d, "target")      # private: concurrent verifications must not share build output
     env = {"CARGO_TARGET_DIR": tgt}
     report = {"verified_at": time.strftime("%Y-%m-%dT%H:%M:%S"), "steps": [],
               "repo_head": subprocess.run(["git", "-C", "/repo", "rev-parse", "--short", "HEAD"],
